@@ -131,6 +131,17 @@ def vtable(k):
 N_VTABLES = 4
 
 
+_EXE = []
+
+
+def _exe_dir():
+    if not _EXE:
+        from vf import scratch
+
+        _EXE.append(scratch.mkdtemp("c11exe"))
+    return _EXE[0]
+
+
 def quantis_case(vi, beta0, beta1, ca, cb, accept_all, forced=None, M=14, variant=None):
     V0, V1 = vtable(vi)
     B = 4
@@ -150,8 +161,22 @@ def quantis_case(vi, beta0, beta1, ca, cb, accept_all, forced=None, M=14, varian
         e0 = lat.ens_set("minus", B, M, rgen=sr.make())
         e1 = lat.ens_set("zero", B, M, rgen=sr.make(), i=0)
         e0["tis_set"] = e1["tis_set"] = tis_set
-        picked = {-1: {"ens": e0, "traj": p0}, 0: {"ens": e1, "traj": p1}}
-        acc, new, st = tis.quantis_swap_zero(picked, {-1: [eng0], 0: [eng1]})
+        # through the real run_md / select_shoot, as a worker does it
+        picked = {-1: {"ens": e0, "traj": p0, "eng_idx": {"q0": 0}, "exe_dir": _exe_dir()},
+                  0: {"ens": e1, "traj": p1, "eng_idx": {"q1": 0}, "exe_dir": _exe_dir()}}
+        md = {"picked": picked, "moves": [], "trial_len": [], "trial_op": [], "generated": [],
+              "mc_moves": ["sh"] * (B + 1), "interfaces": lat.interfaces(B), "cap": None}
+        saved = getattr(tis, "ENGINES", None)
+        tis.ENGINES = {"q0": [eng0], "q1": [eng1]}
+        try:
+            md = tis.run_md(md)
+        finally:
+            tis.ENGINES = saved
+        st = md["status"]
+        acc = st == "ACC"
+        new = [picked[-1]["traj"], picked[0]["traj"]]
+        kept_old = picked[-1]["traj"] is p0 and picked[0]["traj"] is p1
+        replaced_both = picked[-1]["traj"] is not p0 and picked[0]["traj"] is not p1
         sr.force_random(None)
         # reference energies straight from the tables: r_lo = old [0-][-2], r_hi = old [0+][0]
         r0 = lat.phys(p0)[-2]
@@ -161,7 +186,7 @@ def quantis_case(vi, beta0, beta1, ca, cb, accept_all, forced=None, M=14, varian
         dV0 = V0[k0] - V0[k1]
         dV1 = V1[k0] - V1[k1]
         return dict(acc=bool(acc), st=st, dV0=dV0, dV1=dV1, olds=(lat.sites(p0), lat.sites(p1)),
-                    new=tuple(lat.sites(x) for x in new))
+                    new=tuple(lat.sites(x) for x in new), kept_old=kept_old, replaced_both=replaced_both)
 
     pacc = Fraction(0)
     recs = []
@@ -222,6 +247,11 @@ def run_quantis(ctx):
                 for r in recs:
                     if any(len(o) > M for o in r["olds"]):
                         break
+                    if (not r["acc"] and not r["kept_old"]) or (r["acc"] and not r["replaced_both"]):
+                        ctx.violation("quantis:half-swap",
+                                      f"table {vi} colours {ca},{cb} maxlength {M}: move reported {r['st']} but afterwards the ensembles hold "
+                                      f"{'a new path' if not r['kept_old'] else 'an old path'} ({r['new']}) — a swap replaces both paths or none", rp)
+                        return n
                     if not r["acc"]:
                         continue
                     n0, n1 = r["new"]
